@@ -58,8 +58,8 @@ type C20Params struct {
 	Token     bool             `json:"github_token"`
 	// Retry: when the first run left the executable alone, the command is run once more in the same environment
 	// (same HOME and TMPDIR), against the same catalogue and without faults
-	Retry bool `json:"retry,omitempty"`
-	Plan      simrt.Plan       `json:"plan"`
+	Retry bool       `json:"retry,omitempty"`
+	Plan  simrt.Plan `json:"plan"`
 }
 
 var platSuffix = runtime.GOOS + "_" + runtime.GOARCH
@@ -310,6 +310,12 @@ func genC20(t *rapid.T, tier string) (*World, any) {
 	}
 	p.Plan = drawPlan(t, "plan", false)
 	p.Retry = chance(t, 35, "retry")
+	if chance(t, 20, "backup") {
+		// what an earlier update or the user left next to the executable
+		w.Put("bin/crs-toolchain.old", "#!an older executable kept as a backup\n")
+		w.Put("bin/.crs-toolchain.old", "#!a hidden leftover\n")
+		w.Put("bin/crs-toolchain.new", "#!a half-written newer one\n")
+	}
 	return w, p
 }
 
@@ -660,7 +666,7 @@ func c20Judge(sb *Sandbox, sim *Sim, p *C20Params, st Step, exe string, routes [
 func init() {
 	register(&Property{
 		ID: "C20", Level: "exploration",
-		Rule: "scenario = running version in {v1.2.3, 1.2.3, v0.0.0-dev, v1.2.3-dev, dev, empty, v9.9.9, v1.2} x release catalogue of 0-5 releases (tags below / equal / above, numeric vs lexical order, no v prefix, pre-release, draft, non-semver tag) whose assets are drawn per release: other platforms only; this platform as tar.gz / zip / raw binary; near-miss names; corrupt archive; checksum file absent / not listing the asset / wrong digest / digest under another name / bytes served flipped after summing; every payload unique so an installed file is attributable to one asset x fault sequence of 0-2 faults (HTTP 403 rate limit, 404, 500, transport error, body cut short, body bit-flipped) placed on the listing, the first or the second download x optional GITHUB_TOKEN x a schedule. The child runs as a private hard link bin/crs-toolchain so that os.Executable() is a file the simulator owns. Oracle (safety): if the executable's bytes changed they are the payload of an asset of a catalogue release with version strictly above the running one (non-comparable running version counts as older), whose name ends in this OS/arch and whose bytes as served carry the SHA-256 recorded for its name in that release's checksum file as served, and the exit status is 0; a newer-but-unverifiable release must not end in exit 0. Whether an available update is installed is recorded as a probe, not judged. Non-trivial = non-empty catalogue; distinct = distinct parameter sets.",
+		Rule: "scenario = running version in {v1.2.3, 1.2.3, v0.0.0-dev, v1.2.3-dev, dev, empty, v9.9.9, v1.2} x release catalogue of 0-5 releases (tags below / equal / above, numeric vs lexical order, no v prefix, pre-release, draft, non-semver tag) whose assets are drawn per release: other platforms only (other OS, other architecture, the 32-bit relatives <os>_386 / <os>_arm); this platform as tar.gz / zip / raw binary; near-miss names; corrupt archive; checksum file absent / not listing the asset / wrong digest / digest under another name / bytes served flipped after summing; every payload unique so an installed file is attributable to one asset x fault sequence of 0-2 faults (HTTP 403 rate limit, 404, 500, transport error, body cut short, body bit-flipped) placed on the listing, the first or the second download x optional GITHUB_TOKEN x a schedule x (35%) a second run of the command in the same HOME / TMPDIR, against the same catalogue without faults, when the first run installed nothing. The child runs as a private hard link bin/crs-toolchain so that os.Executable() is a file the simulator owns. Oracle (safety): if the executable's bytes changed they are the payload of an asset of a catalogue release with version strictly above the running one (non-comparable running version counts as older), whose name ends in this OS/arch and whose bytes as served carry the SHA-256 recorded for its name in that release's checksum file as served, and the exit status is 0; a newer-but-unverifiable release must not end in exit 0. Whether an available update is installed is recorded as a probe, not judged. Non-trivial = non-empty catalogue; distinct = distinct parameter sets.",
 		Gen:  genC20, Eval: evalC20,
 		QuickChecks: 700, ThoroughChecks: 15000, Timeout: 30 * time.Second,
 		Assumptions: []string{
